@@ -622,9 +622,16 @@ static int run_cmd(struct ctx *c, char **t, int nt) {
     LEV("readFile", e, e ? NULL : "HT");
     }
     if (!e) {
-      for (int round = 0; round < 3; round++) {
-        econf_file *q = kf; const char *tag = round == 0 ? "" : round == 1 ? "merge+" : "write+read+";
+      econf_file *kfl = NULL;
+      for (int round = 0; round < 4; round++) {
+        econf_file *q = kf; const char *tag = round == 0 ? "" : round == 1 ? "merge+" : round == 2 ? "write+read+" : "symlink+";
         char api[64];
+        if (round == 3) {   /* the same file reached through a symbolic link (followed by default) */
+          if (!strcmp(kind, "joined")) break;
+          char *lp; if (asprintf(&lp, "%s/long.link.conf", dir) < 0) lp = NULL; unlink(lp);
+          if (symlink(path, lp) != 0) { free(lp); break; }
+          econf_err le = econf_readFile(&kfl, lp, "=", "#"); free(lp);
+          if (le) { LEV("symlink+readFile", le, NULL); break; } q = kfl; }
         if (round == 1) { econf_newKeyFile(&other, '=', '#'); econf_setStringValue(other, "zz", "o", "1"); econf_err me = econf_mergeFiles(&m, kf, other); if (me) { LEV("merge", me, NULL); break; } q = m; }
         if (round == 2) { econf_err we = econf_writeFile(kf, dir, "long.out"); if (we) { LEV("writeFile", we, NULL); break; }
           char *p2; if (asprintf(&p2, "%s/long.out", dir) < 0) p2 = NULL; econf_err re = econf_readFile(&kf2, p2, "=", "#"); free(p2); if (re) { LEV("write+readFile", re, NULL); break; } q = kf2; }
@@ -648,6 +655,7 @@ static int run_cmd(struct ctx *c, char **t, int nt) {
           LEV(api, e, c); if (!e) econf_freeExtValue(x);
         }
       }
+      econf_freeFile(kfl);
       /* setter path */
       if (!strcmp(kind, "value")) { econf_file *s2 = NULL; econf_newKeyFile(&s2, '=', '#'); e = econf_setStringValue(s2, "g", "k", field); if (!e) e = econf_getStringValue(s2, "g", "k", &str); LEV("setStringValue+getStringValue", e, e ? NULL : str); if (!e) free(str); econf_freeFile(s2); }
       if (!strcmp(kind, "key")) { econf_file *s2 = NULL; econf_newKeyFile(&s2, '=', '#'); e = econf_setStringValue(s2, NULL, field, "v"); size_t n = 0; char **keys = NULL; if (!e) e = econf_getKeys(s2, NULL, &n, &keys); LEV("setStringValue+getKeys", e, (e || !n) ? NULL : keys[0]); if (!e) econf_freeArray(keys); econf_freeFile(s2); }
